@@ -72,3 +72,28 @@ def generate(tier, seed, info):
                 cid, tag, sock, ",".join("%x" % x for x in er), base, 4000))
     info["cases"] = len(out)
     return common.shard(out)
+
+
+def extra_checks(tier, seed, exes, oc, gen_info, log):
+    """the same property over the real TCP socket (reader thread, send worker, escaping): see harness/tcpcheck.py"""
+    import os, sys
+    here = os.path.dirname(os.path.dirname(os.path.abspath(__file__)))
+    sys.path.insert(0, here)
+    import tcpcheck, check
+    wd = os.path.join(check.CACHE, "tcp-%d" % os.getpid())
+    os.makedirs(wd, exist_ok=True)
+    try:
+        r = tcpcheck.run(exes["rel"], os.path.join(check.CACHE, "runner", "model_runner"), wd, tier, seed)
+    finally:
+        import shutil
+        shutil.rmtree(wd, ignore_errors=True)
+    gen_info["tcp"] = {k: v for k, v in r.items() if k != "violations"}
+    gen_info["tcp"]["rule"] = ("scenarios over the real control socket: ELF with MES write calls of texts over {backslash, newline, literal \\\\n, UTF-8, ...} and DDR writes; "
+                               "u8 pokes, port levels and malformed lines sent before cmd:start; received bytes = Run.escape of the model's messages")
+    oc.evaluations += r["cases"]
+    oc.in_domain += r["cases"]
+    log("[C18] tcp: %d scenarios, %d lines compared (+%d sync lines), %d backslashes on the wire, %d differ" % (
+        r["cases"], r["lines"], r["sync_lines"], r["escaped_bytes"], len(r["violations"])))
+    for v in r["violations"]:
+        oc.violations.append(("tcp-scenario %d" % v["case"], {"got": v.get("got"), "tail": v.get("tail"), "why": v["why"]},
+                              {"res": v.get("model_res")}, {"want": v.get("want"), "sent": v.get("sent"), "elf": v.get("elf")}, ["wire"]))
